@@ -91,11 +91,32 @@ def kind_arms(loop_or_fn: ast.AST, scopes: list = None, ctx=None) -> dict:
             # a guard arm (`if nowiki: ...`) in front of the kind dispatch of one if/elif chain
             visit_if(n.orelse[0])
 
-    body = loop_or_fn.body
+    from ..core.special import normalise_get_dispatch
+
+    body = normalise_get_dispatch(loop_or_fn.body, "kind", scopes)
     for st in body:
         if isinstance(st, ast.If):
             visit_if(st)
     return arms
+
+
+def cookie_replacer(ctx) -> tuple:
+    """(dotted name, function node) of the callable that `_finalize_expand` passes to MAGIC_RE_PATTERN.sub(...) -- a
+    nested function or a method of the context; found by its role, not by its name"""
+    fname = "core.Wtp._finalize_expand"
+    fn = ctx.fn(fname)
+    subs = [c for c in walk_no_nested(fn) if isinstance(c, ast.Call) and isinstance(c.func, ast.Attribute) and c.func.attr == "sub"
+            and "MAGIC_RE" in unparse(c.func.value) and c.args]
+    if not subs:
+        raise AnalysisError("_finalize_expand: MAGIC_RE_PATTERN.sub(<replacer>, ...) vanished")
+    a = subs[0].args[0]
+    if isinstance(a, ast.Name):
+        dotted = fname + "." + a.id
+    elif isinstance(a, ast.Attribute) and isinstance(a.value, ast.Name) and a.value.id == "self":
+        dotted = "core.Wtp." + a.attr
+    else:
+        raise AnalysisError("_finalize_expand: the cookie replacer `{}` is not a nested function or a method".format(unparse(a)))
+    return dotted, ctx.fn(dotted)
 
 
 def expand_shared_arms(node: ast.AST, ctx) -> ast.AST:
